@@ -122,6 +122,17 @@ impl Mempool {
             );
             return;
         }
+        // issuance transactions are only valid in block 1: they are pooled by the node that
+        // produces the genesis block (ConsensusThread::generate_issuance_tx) and by nobody else
+        if transaction.transaction_type == TransactionType::Issuance
+            && !(blockchain.blocks.is_empty() && blockchain.genesis_block_id == 0)
+        {
+            debug!(
+                "issuance transaction not accepted into the mempool of a running chain : {:?}",
+                transaction.signature.to_hex()
+            );
+            return;
+        }
         let public_key;
         let tx_valid;
         {
